@@ -254,7 +254,10 @@ impl ProtobufDefGenerator {
                 .collect::<Vec<String>>()
                 .join(".")
         } else {
+            // a name like 'Abc-Module' is stripped to 'Abc-' and must not end as 'abc.'
             Self::model_name(&path.replace('_', "."), '.')
+                .trim_matches('.')
+                .to_string()
         }
     }
 }
